@@ -76,16 +76,16 @@ func main() {
 		os.Exit(2)
 	}
 	start := time.Now()
+	var dl time.Time
+	if *deadline > 0 {
+		dl = start.Add(time.Duration(*deadline) * time.Second)
+		scen.RunDeadline = dl
+	}
 	items := p.Items(*tier)
 	st := mc.NewStats()
 	part := &Part{Prop: *prop, Tier: *tier, Shard: *shard, Items: len(items), PerItem: map[string]int64{}, Rule: p.Rule, Assumptions: p.Assumptions, Floor: p.Floor}
 	if p.Bound != nil {
 		part.Bound = p.Bound(*tier)
-	}
-	var dl time.Time
-	if *deadline > 0 {
-		dl = start.Add(time.Duration(*deadline) * time.Second)
-		scen.RunDeadline = dl
 	}
 	for i, it := range items {
 		if p.Serial {
